@@ -260,19 +260,42 @@ pub fn own_area_enabled(cfg: &Cfg) -> bool {
     cfg.vis.own_use + cfg.vis.own_collect > 0.0
 }
 
-/// own-area shares of the call's boxes through the library function (its correctness is C15's business)
-pub fn own_shares(dets: &[Det]) -> Vec<f32> {
+pub static OWN_SHARES_BY_REFERENCE: std::sync::atomic::AtomicU64 = std::sync::atomic::AtomicU64::new(0);
+pub static OWN_SHARES_BY_LIBRARY: std::sync::atomic::AtomicU64 = std::sync::atomic::AtomicU64::new(0);
+
+/// own-area shares of the call's boxes as the library function reports them (its correctness is C15's business; C15's
+/// tracker section compares the share recorded with a track against this)
+pub fn own_shares_lib(dets: &[Det]) -> Vec<f32> {
     use similari::utils::clipping::bbox_own_areas::{exclusively_owned_areas, exclusively_owned_areas_normalized_shares};
     let boxes: Vec<similari::prelude::Universal2DBox> = dets.iter().map(|d| d.b.lib()).collect();
     let refs: Vec<&similari::prelude::Universal2DBox> = boxes.iter().collect();
     exclusively_owned_areas_normalized_shares(&refs, &exclusively_owned_areas(&refs))
 }
 
+/// own-area shares the thresholds are judged with: the f64 inclusion-exclusion reference over the boxes' polygons (a box
+/// with more than 12 overlapping neighbours falls back to the library value)
+pub fn own_shares(dets: &[Det]) -> Vec<f32> {
+    let polys: Vec<Vec<crate::geom::P>> = dets.iter().map(|d| d.b.poly()).collect();
+    let mut lib: Option<Vec<f32>> = None;
+    (0..dets.len())
+        .map(|i| {
+            let others: Vec<Vec<crate::geom::P>> = (0..dets.len()).filter(|j| *j != i && crate::geom::intersection_area(&polys[i], &polys[*j]) > 0.0).map(|j| polys[j].clone()).collect();
+            if others.len() > 12 {
+                OWN_SHARES_BY_LIBRARY.fetch_add(1, std::sync::atomic::Ordering::Relaxed);
+                return lib.get_or_insert_with(|| own_shares_lib(dets))[i];
+            }
+            OWN_SHARES_BY_REFERENCE.fetch_add(1, std::sync::atomic::Ordering::Relaxed);
+            let a = crate::geom::shoelace(&polys[i]).abs();
+            (crate::geom::uncovered_area(&polys[i], &others) / a).clamp(0.0, 1.0) as f32
+        })
+        .collect()
+}
+
 pub fn usable(cfg: &Cfg, d: &Det, share: Option<f32>, q_thr: f32, own_thr: f32) -> Tri {
     let area = ge_computed(d.b.area(), cfg.vis.min_area as f64, 1e-6);
     let q = ge_input(d.quality.unwrap_or(1.0) as f64, q_thr as f64);
     let own = match share {
-        Some(p) => ge_computed(p as f64, own_thr as f64, 1e-4),
+        Some(p) => ge_computed(p as f64, own_thr as f64, 1e-3),
         None => Tri::Yes,
     };
     and3(and3(area, q), own)
